@@ -860,7 +860,7 @@ def signature_of(cls, v):
 def finding_from(v, i, seed, minimise=True):
     cls = v["class"]
     set_min_budget()
-    if os.environ.get("VERIF_NO_MINIMISE"):
+    if os.environ.get("VERIF_NO_MINIMISE") or is_known_signature(PROP, signature_of(cls, v)):
         minimise = False
     record = {"engine": "modsim", "program_index": i, "run_seed": "%d-%s-%s" % (run_seed(seed, TAG, i), v["kind"], sha(v["detail"])[:6]),
               "kind": v["kind"], "observed": {"class": cls, "detail": v["detail"]}}
